@@ -105,7 +105,7 @@ func initTupleAckData() {
 			{Name: "result", Type: "bytes"},
 			{Name: "message", Type: "string"},
 			{Name: "relayer", Type: "string"},
-			{Name: "feeOption", Type: "uint64"},
+			{Name: "fee_option", Type: "uint64"},
 		},
 	)
 	if err != nil {
